@@ -97,7 +97,8 @@ func VerifC08() {
 			}
 		}
 		present[i] = pres
-		if pres && !byteLevel && len(nodes[i].children) == 0 && verifFlag("asFile") {
+		// a present node may be a regular file; if the tree gives it children they cannot exist then (tree level only)
+		if pres && !byteLevel && verifFlag("asFile") {
 			isFile[i] = true
 		}
 	}
